@@ -77,6 +77,14 @@ class Step:
             self.out, self.snap_text = body.split(" | ", 1)
         else:
             self.out, self.snap_text = body, ""
+        # one `next()` of an open iterator is a read of the head key: the monitors see it as the `get` it is (the raw lines
+        # `impl` / `model` — what the correspondence compares — are left alone); an iterator that answers "end" reads nothing
+        if self.toks[:1] == ["iternext"]:
+            if self.out.startswith("iter ") and not self.out.startswith("iter end") and len(self.toks) > 1 and self.toks[1] != "-":
+                self.toks = ["get", self.toks[1]]
+                self.out = "value " + self.out[len("iter "):]
+            else:
+                self.toks = ["iterend"] + self.toks[1:]
         self._snap = None
 
     @property
